@@ -35,8 +35,15 @@ NAMES = {"x": 1, "y": 2, "z": 3, "i": 11, "j": 12, "k": 13, "row": 20}
 
 
 # ---- expressions: ("i", n) | ("v", name) | ("p", id, e) | ("pb", id, e) | ("bin", op, a, b)
+#      | ("comp", c)   a nested comprehension as a whole operand (container: list, filter: exists, element: select);
+#                      c = {"kind", "phrases", "elt", "elt2", "flavor": "compr" | "funclit"}
+_DOC = [False]     # True while the explicit Go expansion is being rendered
+
+
 def x_go(e, casts):
     t = e[0]
+    if t == "comp":
+        return comp_doc(e[1], casts) if _DOC[0] else comp_sugar(e[1], casts)
     if t == "i":
         return str(e[1]) if e[1] >= 0 else "(%d)" % e[1]
     if t == "v":
@@ -51,6 +58,8 @@ def x_go(e, casts):
 
 def x_m(e):
     t = e[0]
+    if t == "comp":
+        return comp_model(e[1])
     if t == "i":
         return "i%d" % e[1]
     if t == "v":
@@ -66,6 +75,8 @@ GLOB = {"xs": [1, 3, 5, 7, 11], "ys": [10, 20], "zs": []}
 
 def c_go(c):
     t = c[0]
+    if t == "comp":
+        return comp_doc(c[1], ()) if _DOC[0] else comp_sugar(c[1], ())
     if t in GLOB:
         return t
     if t == "rows":
@@ -86,6 +97,8 @@ def c_go(c):
 
 
 def c_sugar(c):
+    if c[0] == "comp":
+        return comp_sugar(c[1], ())
     if c[0] == "lit":
         return "[%s]" % ", ".join(map(str, c[1]))
     if c[0] == "map1":
@@ -97,6 +110,8 @@ def c_sugar(c):
 
 def c_m(c):
     t = c[0]
+    if t == "comp":
+        return comp_model(c[1])
     if t in GLOB:
         return "l" + ",".join(map(str, GLOB[t]))
     if t == "rows":
@@ -163,67 +178,100 @@ def casts_of(phrases):
     return set(p["val"] for p in phrases if base_kind(p["x"]) == "str" and p["val"])
 
 
+IIFE_SIG = {"list": "[]int", "map": "map[int]int", "sel1": "int", "sel2": "(int, bool)", "exists": "bool"}
+
+
+def comp_sugar(c, casts):
+    kind, phrases, elt, elt2 = c["kind"], c["phrases"], c.get("elt"), c.get("elt2")
+    if c.get("flavor") == "funclit":
+        # a func literal with a for-in loop building the same slice (one phrase)
+        p = phrases[0]
+        return "func() []int {\n\t\tvar r []int\n\t\t%s {\n\t\t\tr = append(r, %s)\n\t\t}\n\t\treturn r\n\t}()" % (ph_sugar(p, casts), x_go(elt, casts))
+    fors = " ".join(ph_sugar(p, casts) for p in phrases)
+    if kind == "list":
+        return "[%s %s]" % (x_go(elt, casts), fors)
+    if kind == "map":
+        return "{%s: %s %s}" % (x_go(elt, casts), x_go(elt2, casts), fors)
+    # nested brace forms are parenthesised: like a composite literal, `{...}` cannot start an operand of a filter
+    par = ("(%s)" if c.get("nested") else "%s")
+    if kind in ("sel1", "sel2"):
+        return par % ("{%s %s}" % (x_go(elt, casts), fors))
+    return par % ("{%s}" % fors)
+
+
+def comp_doc(c, casts):
+    """The explicit Go expansion of a comprehension, as an immediately-invoked func literal."""
+    kind, phrases, elt, elt2 = c["kind"], c["phrases"], c.get("elt"), c.get("elt2")
+    old, _DOC[0] = _DOC[0], True
+    try:
+        doc = "func() %s {\n" % IIFE_SIG[kind]
+        doc += {"list": "var res []int\n", "map": "res := map[int]int{}\n"}.get(kind, "")
+        closes = 0
+        for p in reversed(phrases):
+            h, n = loop_open(p, casts, 0)
+            doc += h
+            closes += n
+        if kind == "list":
+            doc += "res = append(res, %s)\n" % x_go(elt, casts)
+        elif kind == "map":
+            doc += "res[%s] = %s\n" % (x_go(elt, casts), x_go(elt2, casts))
+        elif kind == "sel1":
+            doc += "return %s\n" % x_go(elt, casts)
+        elif kind == "sel2":
+            doc += "return %s, true\n" % x_go(elt, casts)
+        else:
+            doc += "return true\n"
+        doc += "}\n" * closes
+        doc += {"list": "return res\n", "map": "return res\n", "sel1": "return 0\n", "sel2": "return 0, false\n", "exists": "return false\n"}[kind]
+        return doc + "}()"
+    finally:
+        _DOC[0] = old
+
+
+def comp_model(c):
+    kind, phrases, elt, elt2 = c["kind"], c["phrases"], c.get("elt"), c.get("elt2")
+    m = "C %s %d %s" % (kind, len(phrases), " ".join(ph_m(p) for p in phrases))
+    if elt is not None:
+        m += " " + x_m(elt)
+    if elt2 is not None:
+        m += " " + x_m(elt2)
+    return m
+
+
+def has_nest(c):
+    def in_e(e):
+        return e is not None and (e[0] == "comp" or (e[0] in ("p", "pb") and in_e(e[2])) or (e[0] == "bin" and (in_e(e[2]) or in_e(e[3]))))
+    def in_c(x):
+        return x[0] == "comp" or (x[0] == "pl" and in_c(x[2]))
+    return any(in_c(p["x"]) or in_e(p["cond"]) for p in c["phrases"]) or in_e(c.get("elt")) or in_e(c.get("elt2"))
+
+
 def mk_case(kind, phrases, elt=None, elt2=None):
     """-> dict(sugar=..., doc=..., model=..., shape=...) ; phrases in SOURCE order (last = outermost)."""
     casts = casts_of(phrases)
-    fors = " ".join(ph_sugar(p, casts) for p in phrases)
+    c = {"kind": kind, "phrases": phrases, "elt": elt, "elt2": elt2}
     ret = {"list": "showL(res)", "map": "showM(res)", "sel1": "fmt.Sprint(res)", "sel2": "fmt.Sprint(res, ok)", "exists": "fmt.Sprint(res)"}
-    if kind == "list":
-        sugar = "\tres := [%s %s]\n" % (x_go(elt, casts), fors)
-    elif kind == "map":
-        sugar = "\tres := {%s: %s %s}\n" % (x_go(elt, casts), x_go(elt2, casts), fors)
-    elif kind == "sel1":
-        sugar = "\tres := {%s %s}\n" % (x_go(elt, casts), fors)
-    elif kind == "sel2":
-        sugar = "\tres, ok := {%s %s}\n" % (x_go(elt, casts), fors)
-    else:
-        sugar = "\tres := {%s}\n" % fors
-    sugar += "\treturn %s\n" % ret[kind]
-    # explicit expansion: outermost loop = last phrase
-    doc = {"list": "\tvar res []int\n", "map": "\tres := map[int]int{}\n", "sel1": "\tres := func() int {\n", "sel2": "\tres, ok := func() (int, bool) {\n",
-           "exists": "\tres := func() bool {\n"}[kind]
-    ind = 1 if kind in ("list", "map") else 2
-    closes = []
-    for p in reversed(phrases):
-        h, n = loop_open(p, casts, ind)
-        doc += h
-        for _ in range(n):
-            closes.append(ind)
-            ind += 1
-        # loop_open with cond uses two levels; fix indentation bookkeeping
-    t = "\t" * ind
-    if kind == "list":
-        doc += "%sres = append(res, %s)\n" % (t, x_go(elt, casts))
-    elif kind == "map":
-        doc += "%sres[%s] = %s\n" % (t, x_go(elt, casts), x_go(elt2, casts))
-    elif kind == "sel1":
-        doc += "%sreturn %s\n" % (t, x_go(elt, casts))
-    elif kind == "sel2":
-        doc += "%sreturn %s, true\n" % (t, x_go(elt, casts))
-    else:
-        doc += "%sreturn true\n" % t
-    for lvl in reversed(closes):
-        doc += "\t" * lvl + "}\n"
-    if kind == "sel1":
-        doc += "\t\treturn 0\n\t}()\n"
-    elif kind == "sel2":
-        doc += "\t\treturn 0, false\n\t}()\n"
-    elif kind == "exists":
-        doc += "\t\treturn false\n\t}()\n"
-    doc += "\treturn %s\n" % ret[kind]
-    model = "%s %d %s %s" % (kind, len(phrases), " ".join(ph_m(p) for p in phrases), x_m(elt) if elt is not None else "")
-    if elt2 is not None:
-        model += " " + x_m(elt2)
-    shape = "%s/%dph/%s%s" % (kind, len(phrases), "+".join(base_kind(p["x"]) for p in phrases), "/filter" if any(p["cond"] is not None for p in phrases) else "")
+    lhs = "res, ok" if kind == "sel2" else "res"
+    sugar = "\t%s := %s\n\treturn %s\n" % (lhs, comp_sugar(c, casts), ret[kind])
+    doc = "\t%s := %s\n\treturn %s\n" % (lhs, comp_doc(c, casts), ret[kind])   # explicit expansion: outermost loop = last phrase
+    model = comp_model(c)[2:]
+    shape = "%s/%dph/%s%s%s" % (kind, len(phrases), "+".join(base_kind(p["x"]) for p in phrases), "/filter" if any(p["cond"] is not None for p in phrases) else "",
+                                "/nested" if has_nest(c) else "")
     return {"sugar": sugar, "doc": doc, "model": model.strip(), "shape": shape}
 
 
 def mk_for(p, body):
     casts = casts_of([p])
     sugar = "\t%s {\n\t\tp(100, %s)\n\t}\n\treturn \"-\"\n" % (ph_sugar(p, casts), x_go(body, casts))
-    h, n = loop_open(p, casts, 1)
-    doc = h + "\t" * (1 + n) + "p(100, %s)\n" % x_go(body, casts) + "".join("\t" * l + "}\n" for l in range(n, 0, -1)) + "\treturn \"-\"\n"
-    return {"sugar": sugar, "doc": doc, "model": "for %s %s" % (ph_m(p), x_m(body)), "shape": "for/%s%s" % (base_kind(p["x"]), "/filter" if p["cond"] is not None else "")}
+    _DOC[0] = True
+    try:
+        h, n = loop_open(p, casts, 1)
+        doc = h + "\t" * (1 + n) + "p(100, %s)\n" % x_go(body, casts) + "".join("\t" * l + "}\n" for l in range(n, 0, -1)) + "\treturn \"-\"\n"
+    finally:
+        _DOC[0] = False
+    nested = has_nest({"phrases": [p], "elt": body})
+    return {"sugar": sugar, "doc": doc, "model": "for %s %s" % (ph_m(p), x_m(body)),
+            "shape": "for/%s%s%s" % (base_kind(p["x"]), "/filter" if p["cond"] is not None else "", "/nested" if nested else "")}
 
 
 def mk_send(es):
@@ -293,11 +341,48 @@ def blank_cases():
     ]
 
 
+def nested_cases():
+    """A for-phrase inside an operand of another for-phrase: container / filter / element, comprehension or func literal
+    with a for-in loop, same and different variable names, key/value forms, two levels."""
+    P = lambda key, val, x, cond=None: {"key": key, "val": val, "x": x, "cond": cond}
+    C = lambda kind, phrases, elt=None, elt2=None, flavor="compr": ("comp", {"kind": kind, "phrases": phrases, "elt": elt, "elt2": elt2, "flavor": flavor, "nested": True})
+    gt = lambda a, b: ("bin", ">", a, b)
+    mul = lambda a, b: ("bin", "*", a, b)
+    add = lambda a, b: ("bin", "+", a, b)
+    y10 = C("list", [P(None, "y", ("ys",))], mul(V("y"), ("i", 10)))
+    return [
+        mk_for(P(None, "x", y10), V("x")),                                                       # for x <- [y*10 for y <- ys] {...}
+        mk_case("list", [P(None, "x", y10)], add(V("x"), ("i", 1))),                              # [x+1 for x <- [y*10 for y <- ys]]
+        mk_case("list", [P(None, "x", C("list", [P("x", None, ("ys",))], mul(V("x"), ("i", 10))))], V("x")),   # same name, key form: indices*10
+        mk_case("list", [P(None, "x", C("list", [P(None, "x", ("xs",))], add(V("x"), ("i", 1))))], V("x")),     # same name, value form
+        mk_case("list", [P("i", "x", C("list", [P("i", "x", ("xs",))], mul(V("i"), V("x"))))], add(V("i"), V("x"))),
+        mk_for(P("i", "x", C("list", [P(None, "y", ("pl", 5, ("ys",)), ("pb", 6, gt(V("y"), ("i", 10))))], ("p", 7, V("y")))), add(V("i"), V("x"))),
+        mk_for(P(None, "x", C("list", [P(None, "y", ("ys",))], mul(V("y"), ("i", 10)), flavor="funclit")), V("x")),   # func literal with a for-in inside the container
+        mk_case("list", [P(None, "x", C("list", [P(None, "x", ("xs",), gt(V("x"), ("i", 3)))], V("x"), flavor="funclit"))], mul(V("x"), ("i", 2))),
+        mk_case("sel2", [P(None, "x", C("list", [P(None, "y", ("xs",))], add(V("y"), ("i", 1))), gt(V("x"), ("i", 5)))], V("x")),
+        mk_case("exists", [P(None, "x", C("list", [P(None, "y", ("zs",))], V("y")), gt(V("x"), ("i", 0)))]),
+        mk_case("map", [P("i", "x", C("list", [P(None, "y", ("ys",))], add(V("y"), ("i", 1))))], V("x"), V("i")),
+        # inside the filter: [x for x <- xs if {for y <- [3, 4, 5] if y == x}]
+        mk_case("list", [P(None, "x", ("xs",), C("exists", [P(None, "y", ("lit", [3, 4, 5]), ("bin", "=", V("y"), V("x")))]))], V("x")),
+        mk_case("list", [P(None, "x", ("xs",), C("exists", [P(None, "x", ("lit", [3, 4, 5]), gt(V("x"), ("i", 4)))]))], ("p", 1, V("x"))),
+        # inside the element: [{y+x for y <- ys if y > 10} for x <- xs]
+        mk_case("list", [P(None, "x", ("lit", [1, 3]))], C("sel1", [P(None, "y", ("ys",), gt(V("y"), ("i", 10)))], add(V("y"), V("x")))),
+        mk_case("map", [P("i", None, ("lit", [4, 5]))], V("i"), C("sel1", [P(None, "x", ("pl", 2, ("ys",)))], add(V("x"), V("i")))),
+        # two levels, and the same name at every level
+        mk_case("list", [P(None, "x", C("list", [P(None, "y", C("list", [P(None, "z", ("xs",))], mul(V("z"), ("i", 2))), gt(V("y"), ("i", 2)))], V("y")))], V("x")),
+        mk_case("list", [P(None, "x", C("list", [P(None, "x", C("list", [P(None, "x", ("xs",))], mul(V("x"), ("i", 2))))], add(V("x"), ("i", 1))))], V("x")),
+        # nested container in a multi-phrase comprehension; the inner phrase reuses the name of the outer phrase
+        mk_case("list", [P(None, "x", C("list", [P(None, "y", ("ys",))], mul(V("y"), ("i", 2)))), P(None, "y", ("lit", [1, 2]))], add(V("x"), V("y"))),
+        mk_case("list", [P(None, "x", C("list", [P(None, "z", ("lit", [1, 2]))], add(V("z"), V("y")))), P(None, "y", ("ys",))], V("x")),
+    ]
+
+
 def finding_cases():
     return []
 
 
 def used_vars(e, acc):
+    """Free variables of an expression (a nested comprehension contributes its free variables)."""
     if e is None:
         return acc
     if e[0] == "v":
@@ -307,6 +392,8 @@ def used_vars(e, acc):
     elif e[0] == "bin":
         used_vars(e[2], acc)
         used_vars(e[3], acc)
+    elif e[0] == "comp":
+        acc |= comp_free(e[1])
     return acc
 
 
@@ -315,7 +402,19 @@ def cont_vars(c, acc):
         acc.add(c[1])
     elif c[0] == "pl":
         cont_vars(c[2], acc)
+    elif c[0] == "comp":
+        acc |= comp_free(c[1])
     return acc
+
+
+def comp_free(c):
+    free, bound = set(), set()
+    for p in reversed(c["phrases"]):              # outermost first
+        free |= cont_vars(p["x"], set()) - bound
+        bound |= set(n for n in (p["key"], p["val"]) if n)
+        free |= used_vars(p["cond"], set()) - bound
+    free |= (used_vars(c.get("elt"), set()) | used_vars(c.get("elt2"), set())) - bound
+    return free
 
 
 def gen_case(rng):
@@ -346,11 +445,61 @@ def gen_case1(rng):
         return ("bin", op, probe(ival(vars_, depth + 1)), ival(vars_, depth + 1))
 
     def cond(vars_):
+        if nesting and rng.below(5) == 0:
+            return ("comp", inner("exists", [v for v in vars_], 1))
         op = rng.choice([">", "<", "=", "!"])
         return probe(("bin", op, ival(vars_, 1), ival(vars_, 1)), True)
 
+    cur_visible = []
+
+    nesting = rng.below(3) == 0        # this instance nests for-phrases inside operands
+
+    def inner(kind, visible, depth):
+        """A comprehension (or a func literal with a for-in loop) used as a whole operand; its variable names are drawn
+        from the same pools as the enclosing ones, so they coincide with enclosing names about half of the time."""
+        while True:
+            npi = 1 if rng.below(3) else 2
+            vs = ["x", "y", "z"]
+            ks = ["i", "j", "k"]
+            phs, seen = [], []
+            for lvl in reversed(range(npi)):
+                if depth < 2 and rng.below(4) == 0:
+                    c = ("comp", inner("list", visible + seen, depth + 1))
+                else:
+                    c = rng.choice([("xs",), ("ys",), ("zs",), ("lit", [rng.below(9) - 2 for _ in range(1 + rng.below(3))])])
+                    if rng.below(3) == 0:
+                        pid[0] += 1
+                        c = ("pl", pid[0], c)
+                val = rng.choice([v for v in vs if v not in [q["val"] for q in phs]])
+                key = rng.choice([k for k in ks if k not in [q["key"] for q in phs]]) if rng.below(3) == 0 else None
+                own = [val] + ([key] if key else [])
+                scope = own + [v for v in seen + visible if v not in own]
+                cd = cond(scope) if rng.below(2) == 0 else None
+                phs.insert(0, {"key": key, "val": val, "x": c, "cond": cd})
+                seen = own + [v for v in seen if v not in own]
+            scope = seen + [v for v in visible if v not in seen]
+            elt = probe(ival(scope)) if kind != "exists" else None
+            c = {"kind": kind, "phrases": phs, "elt": elt, "elt2": None, "nested": True,
+                 "flavor": "funclit" if (kind == "list" and npi == 1 and rng.below(4) == 0) else "compr"}
+            # every variable of the inner comprehension is used, or becomes blank
+            ok = True
+            for i, ph in enumerate(phs):
+                used = used_vars(c["elt"], set()) | used_vars(ph["cond"], set())
+                for q in phs[:i]:                      # phrases nested inside ph
+                    used |= cont_vars(q["x"], set()) | used_vars(q["cond"], set())
+                if ph["key"] and ph["key"] not in used:
+                    ph["key"] = None
+                if ph["val"] not in used:
+                    ph["val"] = None
+            if ok:
+                return c
+
     def container(allow_rows):
+        if nesting and rng.below(3) == 0:
+            return ("comp", inner("list", list(cur_visible), 1))
         r = rng.below(8)
+        if nesting and r == 6:
+            r = 0                      # no string containers next to nested operands (rune casts are per top-level scope)
         if r == 0:
             c = ("xs",)
         elif r == 1:
@@ -378,7 +527,8 @@ def gen_case1(rng):
         return mk_send([probe(ival([])) for _ in range(1 + rng.below(3))])
     if kind == "sendall":
         c = container(False)
-        while base_kind(c) in ("range", "map1", "str") or (c[0] == "lit" and not c[1]):
+        while base_kind(c) in ("range", "map1", "str") or (c[0] == "lit" and not c[1]) or "\n" in c_sugar(c):
+            # (a multi-line func literal before a line-ending `...` trips the scanner's semicolon rule -- a scanner matter, not C02's)
             c = container(False)
         return mk_sendall(c)
     np = 1 if kind == "for" else 1 + rng.below(3)
@@ -386,6 +536,7 @@ def gen_case1(rng):
     # build from the outermost (last in source) to the innermost so that inner phrases may use outer variables
     phrases, outer = [], []
     for lvl in reversed(range(np)):
+        cur_visible[:] = [v for v in outer if v != "row"]
         c = container(True)
         if outer and "row" in outer and rng.below(2) == 0:
             c = ("var", "row")
@@ -402,6 +553,8 @@ def gen_case1(rng):
         outer = outer + own + (["row"] if val == "row" else [])
     ints = [v for v in outer if v != "row"]
     elt = probe(ival(ints)) if kind != "exists" else None
+    if elt is not None and nesting and rng.below(5) == 0:
+        elt = ("comp", inner("sel1", ints, 1))
     elt2 = probe(ival(ints)) if kind == "map" else None
     used = set()
     used_vars(elt, used)
@@ -443,7 +596,7 @@ def run(ctx):
     open(os.path.join(d, "go.mod"), "w").write(gomod(vlib.REPO))
     shutil.copy(os.path.join(vlib.REPO, "go.sum"), os.path.join(d, "go.sum"))
 
-    fixed = fixed_cases() + blank_cases()
+    fixed = fixed_cases() + blank_cases() + nested_cases()
     finds = finding_cases()
     cases = fixed + [c for c, _ in finds]
     nfixed = len(cases)
